@@ -5,6 +5,7 @@ import (
 	"go/token"
 	"go/types"
 	"sort"
+	"strings"
 )
 
 func init() {
@@ -291,4 +292,245 @@ func ruleLogOrderDelivery(c *Ctx) {
 			c.ok(key, q.Pos(), true, "%s: every consumer takes element 0 and drops it from the front (or traverses forward)", queues[q])
 		}
 	}
+}
+
+func init() {
+	register(&Rule{ID: "R7.lock-primitive", Props: []string{"C07", "C18"}, Floor: 6,
+		Text: "every lock argument of C07 rests on the repository's own two implementations of its reader/writer lock interface. The spin lock (a type whose Lock/RLock/Unlock/RUnlock work on one atomic word: 0 free, -1 a writer, n > 0 readers) acquires only by compare-and-swap of a value it just loaded and tested — Lock swaps 0 for a negative constant under `state == 0`, RLock swaps state for state+1 under `state >= 0` — and an acquiring method performs no other modification of the word (no Add, Store or Swap: an optimistic Add(1) turns a writer's -1 into 0 for an instant, and the next reader or writer walks in); releases are Add(+1) for Unlock and Add(-1) for RUnlock. The mutex wrapper's methods reach only the matching method of sync.RWMutex (Lock and LockLowPriority: Lock or a TryLock whose success is tested; RLock: RLock; Unlock: Unlock; RUnlock: RUnlock)",
+		Run:  ruleLockPrimitive})
+}
+
+func ruleLockPrimitive(c *Ctx) {
+	pk := c.Pkgs["internal/server"]
+	if pk == nil {
+		c.und("anchors", 0, "internal/server not loaded")
+		return
+	}
+	n := 0
+	for _, name := range pk.Types.Scope().Names() {
+		tn, ok := pk.Types.Scope().Lookup(name).(*types.TypeName)
+		if !ok {
+			continue
+		}
+		st, ok := tn.Type().Underlying().(*types.Struct)
+		if !ok {
+			continue
+		}
+		ms := map[string]*FuncInfo{}
+		for _, m := range []string{"Lock", "Unlock", "RLock", "RUnlock", "LockLowPriority"} {
+			if fi := c.Func("internal/server", name, m); fi != nil {
+				ms[m] = fi
+			}
+		}
+		if ms["Lock"] == nil || ms["Unlock"] == nil || ms["RLock"] == nil || ms["RUnlock"] == nil {
+			continue
+		}
+		var word, mutex *types.Var
+		for i := 0; i < st.NumFields(); i++ {
+			f := st.Field(i)
+			if isNamedType(f.Type(), "sync/atomic", "Int32") || isNamedType(f.Type(), "sync/atomic", "Int64") {
+				word = f
+			}
+			if isNamedType(f.Type(), "sync", "RWMutex") {
+				mutex = f
+			}
+		}
+		for mname, fi := range ms {
+			info := fi.Info()
+			key := name + "." + mname
+			n++
+			// calls on the word / on the mutex, and calls of sibling methods
+			type op struct {
+				name string
+				call *ast.CallExpr
+			}
+			var ops []op
+			ast.Inspect(fi.Decl.Body, func(x ast.Node) bool {
+				call, ok := x.(*ast.CallExpr)
+				if !ok {
+					return true
+				}
+				se, ok := ast.Unparen(call.Fun).(*ast.SelectorExpr)
+				if !ok {
+					return true
+				}
+				if fv := selField(info, se.X); fv != nil && (fv == word || fv == mutex) {
+					ops = append(ops, op{se.Sel.Name, call})
+				}
+				return true
+			})
+			acquire := mname == "Lock" || mname == "RLock" || mname == "LockLowPriority"
+			switch {
+			case word != nil:
+				bad := ""
+				fg := newFlowGraph(info, fi.Decl.Body)
+				delegates := false
+				ast.Inspect(fi.Decl.Body, func(x ast.Node) bool {
+					if call, ok := x.(*ast.CallExpr); ok {
+						if f := callee(info, call); f != nil && ms["Lock"] != nil && f == ms["Lock"].Obj && mname == "LockLowPriority" {
+							delegates = true
+						}
+					}
+					return true
+				})
+				if delegates && len(ops) == 0 {
+					c.ok(key, fi.Decl.Pos(), true, "delegates to Lock")
+					continue
+				}
+				for _, o := range ops {
+					switch {
+					case o.name == "Load":
+					case acquire && o.name == "CompareAndSwap" && len(o.call.Args) == 2:
+						// the expected value is a local loaded from the word, tested by a dominating fact
+						id, ok := ast.Unparen(o.call.Args[0]).(*ast.Ident)
+						if !ok {
+							bad = "CompareAndSwap with an expected value that is not a loaded local"
+							break
+						}
+						def, _ := ast.Unparen(resolveLocalIn(info, fi.Decl.Body, id)).(*ast.CallExpr)
+						if def == nil {
+							bad = "the expected value of CompareAndSwap is not the result of a Load of the word"
+							break
+						}
+						if dse, ok := ast.Unparen(def.Fun).(*ast.SelectorExpr); !ok || dse.Sel.Name != "Load" || selField(info, dse.X) != word {
+							bad = "the expected value of CompareAndSwap is not the result of a Load of the word"
+							break
+						}
+						// the guard and the new value
+						l := fg.LocOfOuter(o.call)
+						guardOK := false
+						var facts []Fact
+						if l.Valid() {
+							facts = fg.DominatingFacts(l)
+						}
+						// the CAS usually stands in the same condition as its guard: `state == 0 && CAS(…)`
+						if cond := enclosingCond(c, o.call); cond != nil {
+							var cs []ast.Expr
+							flattenAnd(cond, &cs)
+							for _, cj := range cs {
+								if containsNode(cj, o.call) {
+									break
+								}
+								facts = append(facts, Fact{E: cj})
+							}
+						}
+						for _, f := range facts {
+							be, ok := ast.Unparen(f.E).(*ast.BinaryExpr)
+							if !ok || f.Neg {
+								continue
+							}
+							lid, ok := ast.Unparen(be.X).(*ast.Ident)
+							if !ok || info.ObjectOf(lid) != info.ObjectOf(id) {
+								continue
+							}
+							zero := false
+							if tv, ok := info.Types[be.Y]; ok && tv.Value != nil && tv.Value.String() == "0" {
+								zero = true
+							}
+							if !zero {
+								continue
+							}
+							nv := ast.Unparen(o.call.Args[1])
+							if mname == "RLock" && be.Op == token.GEQ {
+								// new value state+1
+								if nb, ok := nv.(*ast.BinaryExpr); ok && nb.Op == token.ADD {
+									if nid, ok := ast.Unparen(nb.X).(*ast.Ident); ok && info.ObjectOf(nid) == info.ObjectOf(id) {
+										if tv, ok := info.Types[nb.Y]; ok && tv.Value != nil && tv.Value.String() == "1" {
+											guardOK = true
+										}
+									}
+								}
+							}
+							if mname != "RLock" && be.Op == token.EQL {
+								if tv, ok := info.Types[nv]; ok && tv.Value != nil && strings.HasPrefix(tv.Value.String(), "-") {
+									guardOK = true
+								}
+							}
+						}
+						if !guardOK {
+							bad = "the CompareAndSwap is not guarded by the test of the loaded value it needs (== 0 for a writer with a negative new value, >= 0 for a reader with state+1)"
+						}
+					case !acquire && o.name == "Add" && len(o.call.Args) == 1:
+						want := "1"
+						if mname == "RUnlock" {
+							want = "-1"
+						}
+						if tv, ok := info.Types[o.call.Args[0]]; !ok || tv.Value == nil || tv.Value.String() != want {
+							bad = "the release adds " + exprStr(o.call.Args[0]) + " to the word, expected " + want
+						}
+					default:
+						if acquire {
+							bad = "an acquiring method modifies the word with " + o.name + " (only a guarded CompareAndSwap may): between an optimistic Add and its undo the word shows a state that is not the lock's, and another reader or writer acquires on it"
+						} else {
+							bad = "a releasing method uses " + o.name
+						}
+					}
+					if bad != "" {
+						c.bad(key, o.call.Pos(), "%s.%s: %s", name, mname, bad)
+						break
+					}
+				}
+				if bad == "" {
+					if len(ops) == 0 {
+						c.bad(key, fi.Decl.Pos(), "%s.%s never touches the lock word", name, mname)
+					} else {
+						c.ok(key, fi.Decl.Pos(), true, "works on the lock word only through the permitted operations")
+					}
+				}
+			case mutex != nil:
+				allowed := map[string]map[string]bool{
+					"Lock": {"Lock": true, "TryLock": true}, "LockLowPriority": {"Lock": true, "TryLock": true},
+					"RLock": {"RLock": true}, "Unlock": {"Unlock": true}, "RUnlock": {"RUnlock": true},
+				}[mname]
+				bad := ""
+				for _, o := range ops {
+					if !allowed[o.name] {
+						bad = o.name
+					}
+				}
+				switch {
+				case bad != "":
+					c.bad(key, fi.Decl.Pos(), "%s.%s calls %s on the wrapped sync.RWMutex", name, mname, bad)
+				case len(ops) == 0:
+					c.bad(key, fi.Decl.Pos(), "%s.%s never reaches the wrapped sync.RWMutex", name, mname)
+				default:
+					c.ok(key, fi.Decl.Pos(), true, "reaches only the matching method of sync.RWMutex")
+				}
+			default:
+				c.und(key, fi.Decl.Pos(), "a lock implementation that is neither a word-based spin lock nor a sync.RWMutex wrapper")
+			}
+		}
+	}
+	c.stat("lock_methods", n)
+}
+
+// enclosingCond: the condition expression (of an if or for) that contains n, or nil.
+func enclosingCond(c *Ctx, n ast.Node) ast.Expr {
+	for p := c.Parent(n); p != nil; p = c.Parent(p) {
+		switch x := p.(type) {
+		case *ast.IfStmt:
+			if containsNode(x.Cond, n) {
+				return x.Cond
+			}
+			return nil
+		case *ast.ForStmt:
+			if x.Cond != nil && containsNode(x.Cond, n) {
+				return x.Cond
+			}
+			return nil
+		case *ast.FuncDecl, *ast.FuncLit:
+			return nil
+		}
+	}
+	return nil
+}
+
+func flattenAnd(e ast.Expr, out *[]ast.Expr) {
+	e = ast.Unparen(e)
+	if be, ok := e.(*ast.BinaryExpr); ok && be.Op == token.LAND {
+		flattenAnd(be.X, out)
+		flattenAnd(be.Y, out)
+		return
+	}
+	*out = append(*out, e)
 }
